@@ -214,6 +214,7 @@ type WorldCfg struct {
 	MaxPoints      int64
 	ExtraTrunk     int // trunk blocks mined beyond InitialChain that are not announced at boot
 	Burst          int `json:",omitempty"` // extra independent relevant txs B001.. the burst event relays back to back
+	MaxRetries     int `json:",omitempty"` // config.MaxRetries (0 = 25)
 	HeaderBatch    int `json:",omitempty"` // most headers the peer puts into one headers message (0 = 2000, Bitcoin's limit)
 }
 
@@ -349,6 +350,9 @@ func NewWorld(cfg WorldCfg) *World {
 	w.NodeCfg = config.Config{Net: bitcoin.MainNet, NodeAddress: trustedAddr, UserAgent: "/verif/",
 		StartHash: start, UntrustedCount: cfg.Untrusted, SafeTxDelay: cfg.SafeDelayMS, ShotgunCount: 0,
 		RequestMempool: cfg.RequestMempool, MaxRetries: 25, RetryDelay: 1000}
+	if cfg.MaxRetries > 0 {
+		w.NodeCfg.MaxRetries = cfg.MaxRetries
+	}
 	return w
 }
 
